@@ -1172,7 +1172,8 @@ class NestedPipeFunc(PipeFunc):
         # of a multi-output function under its own name (not under the tuple).
         leaf_name = at_least_tuple(self.pipeline.unique_leaf_node.output_name)[0]
         func = self.pipeline.func(leaf_name)
-        return _NestedFuncWrapper(func.call_full_output, self.output_name)
+        # The internal pipeline knows the outputs by their names before `renames`
+        return _NestedFuncWrapper(func.call_full_output, self._output_name)
 
     @functools.cached_property
     def __name__(self) -> str:  # type: ignore[override]
